@@ -37,7 +37,8 @@ pub struct Builtin {
 }
 
 pub fn gen_string(c: &mut Choices) -> String {
-    const P: [&str; 14] = ["", "a", "b", "ab", "é", "日本", " ", "\n", "\r\n", "x y", "A", "ß", "\u{0301}", "\t"];
+    // (letters whose case mapping is not ASCII: other length, context-dependent, title case)
+    const P: [&str; 21] = ["", "a", "b", "ab", "é", "日本", " ", "\n", "\r\n", "x y", "A", "ß", "\u{0301}", "\t", "É", "Ä", "ΑΣ", "İ", "ǅ", "ﬁ", "Ω"];
     let n = match c.below(5) {
         0 => 0,
         1 => 1,
@@ -276,6 +277,37 @@ pub fn catalogue() -> Vec<Builtin> {
         expect_eq!(cx, "l_swap_get", f.call(l.clone(), i, j, k).map(|x| x.to_string()), exp, "{n} elements, {i}, {j}, {k}");
         // the argument list is shared: the swap is visible through the Rust handle too
         expect_eq!(cx, "l_swap_get", list_strings(&l), parts.clone(), "{n} elements, {i}, {j}: contents after the call");
+        Ok(())
+    }});
+    v.push(Builtin { name: "l_eq", src: "fn l_eq(a: List[String], b: List[String]) -> bool { a == b }\nfn l_ne(a: List[u64], b: List[u64]) -> bool { a != b }", run: |cx| {
+        // lengths on both sides of each other, one list a prefix of the other or differing at one place
+        let n = [0usize, 1, 2, 3, 4, 5, 8][cx.c.below(7)];
+        let m = [0usize, 1, 2, 3, 4, 5, 8][cx.c.below(7)];
+        let base: Vec<String> = (0..n.max(m)).map(|i| format!("{}{i}", gen_string(cx.c))).collect();
+        let pa: Vec<String> = base[..n].to_vec();
+        let mut pb: Vec<String> = base[..m].to_vec();
+        if m > 0 && cx.c.chance(70) {
+            let k = cx.c.below(m);
+            pb[k].push('!');
+        }
+        let a: List<RotoString> = pa.iter().map(|p| rs(p)).collect();
+        let b: List<RotoString> = pb.iter().map(|p| rs(p)).collect();
+        let f = get!(cx, "l_eq", fn(List<RotoString>, List<RotoString>) -> bool);
+        cx.nontrivial = n != m;
+        expect_eq!(cx, "l_eq", f.call(a.clone(), b.clone()), pa == pb, "{pa:?} == {pb:?}");
+        expect_eq!(cx, "l_eq", f.call(b.clone(), a.clone()), pa == pb, "{pb:?} == {pa:?}");
+        expect_eq!(cx, "l_eq", f.call(a.clone(), a.clone()), true, "{pa:?} == itself");
+        let na: Vec<u64> = (0..n as u64).collect();
+        let mut nb: Vec<u64> = (0..m as u64).collect();
+        if m > 0 && cx.c.chance(70) {
+            let k = cx.c.below(m);
+            nb[k] = u64::MAX;
+        }
+        let la: List<u64> = na.iter().copied().collect();
+        let lb: List<u64> = nb.iter().copied().collect();
+        let g = get!(cx, "l_ne", fn(List<u64>, List<u64>) -> bool);
+        expect_eq!(cx, "l_eq", g.call(la.clone(), lb.clone()), na != nb, "{na:?} != {nb:?}");
+        expect_eq!(cx, "l_eq", g.call(lb.clone(), la.clone()), na != nb, "{nb:?} != {na:?}");
         Ok(())
     }});
     v.push(Builtin { name: "l_push_len", src: "fn l_push_len(l: List[String], x: String, times: u64) -> u64 { let k = 0; while k < times { l.push(x); k = k + 1; } l.len() }", run: |cx| {
